@@ -578,4 +578,109 @@ example : AgreeRun PV.C01.M3 PV.C01.adr3 PV.C01.net3a PV.C01.evs3 :=
       simp [SchedNT, PV.C01.evs3]
       decide))
 
+/-! ## Ring level (timed): the token holder stops for good — the survivor generates a new token -/
+
+/-- A listener of the stable ring that is idle, has been polled after the end of every transmission and whose
+stamp is not in the future satisfies the quiet-survivor invariant `QInv`. -/
+theorem quiet_invariant_of_ring (cfg : Cfg) (hok : cfg.Ok) (M : List Nat) (adr : Nat → Nat) (n : Net) (v : NView)
+    (h : NInv cfg M adr n v) (j : Nat) (hj : j < n.stations.length) (hjx : j ≠ v.x) (st : NetStation)
+    (hst : n.stations[j]? = some st) (hidle : ∃ np coll, st.s.st = .activeIdle none np coll)
+    (hall : ∀ t ∈ n.bus.txs, cEnd cfg t ≤ n.bus.seen.getD j 0)
+    (hstamp : ∀ l, st.s.lastBusActivity = some l → l ≤ n.bus.seen.getD j 0) :
+    ∃ l, QInv cfg M adr n j st l :=
+  QInv.ofNInv h hok j hj hjx st hst hidle hall hstamp
+
+/-- The poll at which the quiet survivor's token-lost time-out has run out: it claims the token. -/
+theorem holder_crash_claim_step (cfg : Cfg) (hok : cfg.Ok) (M : List Nat) (adr : Nat → Nat) (n : Net) (j : Nat)
+    (st : NetStation) (l : Int) (h : QInv cfg M adr n j st l) (now : Int) (hown : n.bus.seen.getD j 0 < now)
+    (hexp : l + (st.s.p.tokenLostTimeout : Nat) ≤ now) :
+    ∃ n' c, n.poll j now = (n', [], some (.ok c)) ∧ c.tx = some (selfToken (adr j)) ∧
+      c.s.st = .claimToken .secondToken ∧ c.s.ring = st.s.ring.claimToken ∧ Inv c.s c.apps ∧
+      n'.stations[j]? = some (upSt st c) := by
+  obtain ⟨hd, hphy⟩ := quiet_deliver h hok now hown
+  obtain ⟨np, coll, hst⟩ := h.idle
+  have htto := h.okj.tto
+  have hb33 := h.okj.b33
+  have hgm : cfg.b33 ≤ cfg.gmax := by unfold Cfg.gmax; omega
+  obtain ⟨c, hc, hinv, htx, hcs, -, hring, -⟩ := claim_progress { s := st.s, apps := st.apps, rx := [] } now l h.okj.inv
+    h.okj.son rfl rfl h.stamp (.inr ⟨none, np, coll, hst⟩) (by show (now - l).natAbs ≥ st.s.p.tokenLostTimeout; omega)
+    (by show l + (st.s.p.bits 33 : Nat) < now; rw [hb33]; omega)
+  have hp' : st.s.poll st.apps now (Bus.transmitting { n.bus with seen := n.bus.seen.set j now } j now)
+      (st.rx ++ []) = .ok c := by rw [transmitting_seen, h.rx, hphy]; exact hc
+  have hpe := Net.poll_eq n j now st _ [] c h.gj h.okj.alive h.okj.online hd hp'
+  refine ⟨_, c, hpe, by rw [htx]; show _ = some (selfToken (adr j)); rw [← h.okj.addr], hcs, hring, hinv, ?_⟩
+  exact List.getElem?_set_self h.jlt
+
+/-- Run of the quiet survivor (`T` = stamp + token-lost time-out, `lim` = latest time of the claim): every poll
+returns regularly and receives nothing; before `T` nothing is transmitted; the first poll at or after `T` — no
+later than `lim` — transmits the token addressed to the station itself (`ClaimToken`); afterwards every poll
+returns regularly. -/
+def ClaimRun (j aj : Nat) (lim T : Int) : Net → List Int → Prop
+  | _, [] => True
+  | n, now :: rest =>
+    ∃ n' c, n.poll j now = (n', [], some (.ok c)) ∧ now ≤ lim ∧
+      ((c.tx = none ∧ now < T ∧ ClaimRun j aj lim T n' rest) ∨
+       (T ≤ now ∧ c.tx = some (selfToken aj) ∧ c.s.st = .claimToken .secondToken ∧ SoloRun j n' rest))
+
+/-- **The token holder stops for good: the survivor generates a new token** (ring-level clause of C06, lost
+token).  Station models on the byte-accurate bus of `Model/Net.lean`; the survivor `j` is idle, up to date and
+has stamp `l` (`QInv`, e.g. a listener of the stable ring after the end of the holder's last transmission:
+`quiet_invariant_of_ring`); from now on only `j` is polled, at increasing times with gaps at most `P`.  Then
+(`ClaimRun`): every poll returns regularly and receives nothing; nothing is transmitted before
+`l + Tto` (its token-lost time-out `Tsl·(6 + 2·TS)`); the first poll at or after `l + Tto` — no later than
+`max(last poll, l + Tto) + P` — transmits the self-addressed token, the station is in `ClaimToken`; all later
+polls return regularly. -/
+theorem holder_crash_claim (cfg : Cfg) (hok : cfg.Ok) (M : List Nat) (adr : Nat → Nat) (j : Nat) (st : NetStation) (l : Int)
+    (S : Int) : ∀ (evs : List Int) (n : Net), QInv cfg M adr n j st l → n.bus.seen.getD j 0 ≤ S →
+    l + (st.s.p.tokenLostTimeout : Nat) ≤ S → SchedXT cfg.P (n.bus.seen.getD j 0) evs →
+    ClaimRun j (adr j) (S + (cfg.P : Nat)) (l + (st.s.p.tokenLostTimeout : Nat)) n evs := by
+  intro evs
+  induction evs with
+  | nil => intro _ _ _ _ _; trivial
+  | cons now rest ih =>
+    intro n h hS hT hsch
+    obtain ⟨hlt, hle, hrest⟩ := hsch
+    have hjs : j < n.bus.seen.length := by rw [h.log.seen]; exact h.jlt
+    have hseen' : ∀ n' inc r, n.poll j now = (n', inc, r) → n'.bus.seen.getD j 0 = now := by
+      intro n' inc r hp
+      have := Net.poll_seenN n j now
+      rw [hp] at this
+      simp only at this
+      rw [this, seen_set_self _ _ _ hjs]
+    by_cases hw : now < l + (st.s.p.tokenLostTimeout : Nat)
+    · obtain ⟨n', c, hp, htx, hinv'⟩ := quiet_wait h hok now hlt hw
+      refine ⟨n', c, hp, by omega, .inl ⟨htx, hw, ?_⟩⟩
+      exact ih n' hinv' (by rw [hseen' _ _ _ hp]; omega) hT (by rw [hseen' _ _ _ hp]; exact hrest)
+    · obtain ⟨n', c, hp, htx, hcs, -, hinvc, hgj'⟩ := holder_crash_claim_step cfg hok M adr n j st l h now hlt (by omega)
+      refine ⟨n', c, hp, by omega, .inr ⟨by omega, htx, hcs, ?_⟩⟩
+      exact solo_regular j rest n' (upSt st c) hgj' h.okj.alive h.okj.online hinvc
+
+/-! Non-vacuity: in the three-station example of C01 (`net3a`: station 5 holds the token since 70 µs) station 7
+(index 2) is idle, was polled at 68 µs after the end (66 µs) of the only transmission and has stamp 68.  If from
+now on only station 7 is polled (every 90 µs), it claims the token at the first poll at or after 68 + 8000 µs. -/
+example : ∃ l : Int, QInv PV.C01.cfg2 PV.C01.M3 PV.C01.adr3 PV.C01.net3a 2 PV.C01.ns3c l :=
+  quiet_invariant_of_ring PV.C01.cfg2 PV.C01.cfg2_ok PV.C01.M3 PV.C01.adr3 PV.C01.net3a PV.C01.view3a PV.C01.ninv3a 2
+    (by decide) (by decide) PV.C01.ns3c rfl ⟨none, 0, rfl⟩
+    (by intro t ht; simp only [PV.C01.net3a, List.mem_singleton] at ht; subst ht; decide)
+    (by intro l hl; have : PV.C01.ns3c.s.lastBusActivity = some 68 := rfl; rw [this] at hl; cases hl; decide)
+
+/-- Equidistant poll times `a + d, a + 2d, …` (`k` of them). -/
+def apList (d : Int) : Int → Nat → List Int
+  | _, 0 => []
+  | a, k + 1 => (a + d) :: apList d (a + d) k
+
+theorem schedXT_ap (P : Nat) (d : Int) (hd : 0 < d) (hdP : d ≤ (P : Int)) : ∀ (k : Nat) (a : Int), SchedXT P a (apList d a k) := by
+  intro k
+  induction k with
+  | zero => intro a; trivial
+  | succ k ih => intro a; exact ⟨by omega, by omega, ih (a + d)⟩
+
+def evsQ : List Int := apList 90 68 95
+
+example (l : Int) (hq : QInv PV.C01.cfg2 PV.C01.M3 PV.C01.adr3 PV.C01.net3a 2 PV.C01.ns3c l) :
+    ClaimRun 2 7 (max 68 (l + 8000) + 100) (l + 8000) PV.C01.net3a evsQ :=
+  holder_crash_claim PV.C01.cfg2 PV.C01.cfg2_ok PV.C01.M3 PV.C01.adr3 2 PV.C01.ns3c l (max 68 (l + 8000)) evsQ PV.C01.net3a hq
+    (by show (68 : Int) ≤ max 68 (l + 8000); omega) (by show l + 8000 ≤ max 68 (l + 8000); omega)
+    (schedXT_ap 100 90 (by decide) (by decide) 95 68)
+
 end PV.C06
